@@ -338,13 +338,25 @@ func (n *lazyNode) isNull() bool {
 	}
 
 	if n.raw == nil {
-		return true
+		// A parsed node (e.g. the document root handed to test) has no raw
+		// form but is not null.
+		return n.which == eRaw
+	}
+
+	if n.which != eRaw {
+		return false
 	}
 
 	return bytes.Equal(n.compact(), rawJSONNull)
 }
 
 func (n *lazyNode) equal(o *lazyNode) bool {
+	// null is represented both by a nil node (decoded from a document) and
+	// by a node holding the raw text "null" (supplied by a patch).
+	if n.isNull() || o.isNull() {
+		return n.isNull() && o.isNull()
+	}
+
 	if n.which == eRaw {
 		if !n.tryDoc() && !n.tryAry() {
 			if o.which != eRaw {
@@ -397,11 +409,11 @@ func (n *lazyNode) equal(o *lazyNode) bool {
 				return false
 			}
 
-			if (v == nil) != (ov == nil) {
+			if v.isNull() != ov.isNull() {
 				return false
 			}
 
-			if v == nil && ov == nil {
+			if v.isNull() && ov.isNull() {
 				continue
 			}
 
@@ -1107,7 +1119,7 @@ func (p Patch) test(doc *container, op Operation, options *ApplyOptions) error {
 
 	ov := op.value()
 
-	if val == nil {
+	if val.isNull() {
 		if ov.isNull() {
 			return nil
 		}
